@@ -92,6 +92,54 @@ def q4a(r00: int, r01: int, r02: int, r10: int, r11: int, r12: int, r20: int, r2
     return q.run(_q4a, (r00, r01, r02, r10, r11, r12, r20, r21, r22, e0, e1, e2))
 
 
+# ---------------------------------------------------------------- Q4u file names are what the file system says they are
+NFC, NFD = "caf\u00e9", "cafe\u0301"            # two different file names on a byte-exact file system
+UNI = [
+    ("source exists under its decomposed name and is used under exactly that name", [("T", [NFD], ["t.out"])], [NFD], None),
+    ("source exists under its composed name and is used under exactly that name", [("T", [NFC], ["t.out"])], [NFC], None),
+    ("two targets write two files whose names differ only in normalisation form", [("P", [], [NFC]), ("Q", [], [NFD])], [], None),
+    ("the input is missing; a file with the other normalisation form exists", [("T", [NFC], ["t.out"])], [NFD], "unres"),
+    ("the input is missing; a file with the other normalisation form exists (converse)", [("T", [NFD], ["t.out"])], [NFC], "unres"),
+    ("one target writes the composed name, another reads the decomposed one, which is a missing source", [("P", [], [NFC]), ("Q", [NFD], ["q.out"])], [], "unres"),
+    ("upper/lower case variants are different files", [("P", [], ["Data.txt"]), ("Q", [], ["data.txt"])], [], None),
+    ("a name with a trailing blank is a different file", [("T", ["in.txt "], ["t.out"])], ["in.txt"], "unres"),
+]
+
+
+def _q4u(k):
+    if not q.in_range(k, len(UNI)):
+        return q.SKIP
+    label, tspec, present, want = q.pick(UNI, k)
+    w = vfs.VFS()
+    w.dirs.add("/vfs/p")
+    for f in present:
+        w.add("/vfs/p/" + f, 5, "content")
+    vfs.install(w)
+    try:
+        targets = {nm: Target(name=nm, inputs=ins, outputs=outs, options={}, working_dir="/vfs/p", spec="x") for nm, ins, outs in tspec}
+        err = None
+        try:
+            Graph.from_targets(targets, CachedFilesystem())
+        except FileProvidedByMultipleTargetsError:
+            err = "multi"
+        except UnresolvedInputError:
+            err = "unres"
+        except CircularDependencyError:
+            err = "cyclic"
+        if err != want:
+            return "%s: %s, expected %s" % (label, ("rejected as " + err) if err else "accepted", ("rejection as " + want) if want else "acceptance")
+        return ""
+    finally:
+        vfs.uninstall()
+
+
+def q4u(k: int) -> str:
+    """
+    post: _ == ""
+    """
+    return q.run(_q4u, (k,))
+
+
 # ---------------------------------------------------------------- Q4b no side effect on rejection
 ILL = ["multi", "unres", "cycle2", "self", "cycle3-unreachable", "self+chain", "cycle2+chain"]
 
@@ -299,6 +347,8 @@ QUERIES = [
      "timeout": {"quick": 600, "thorough": 2400},
      "bound": "role of every (target, file) in {none, input, output, both} and existence of every file symbolic; quick: 3 targets x 2 files, definition order 0,1,2 (all) and 2,0,1 (first target producing/self-looping on file 0); thorough: 3 x 3 (third file never both input and output of one target), definition order 0,1,2 and, for producing first targets, 2,1,0; "
               "extra shards put an unrelated healthy chain of 3-5 targets into the same workflow (defined before or after): 2 targets x 2 files (quick), 3 x 2 (thorough)"},
+    {"name": "Q4u", "fn": q4u, "shards": [{}], "timeout": 120,
+     "bound": "catalogue of %d small workflows whose file names differ only in Unicode normalisation form, letter case or a trailing blank (a byte-exact file system: they are different files)" % len(UNI)},
     {"name": "Q4b", "fn": q4b, "shards": {"quick": [{"be": "slurm"}], "thorough": [{"be": b} for b in ("slurm", "sge", "lsf", "local")]}, "timeout": {"quick": 900, "thorough": 1200},
      "bound": "7 ill-formed workflows (two producers across spellings, missing source, 2-cycle, self-loop, 3-cycle not reachable from the first target, self-loop / 2-cycle beside a healthy chain of 4) next to a healthy target x "
               "{run, run --dry-run, status, clean --all -f, touch, cancel -f, info} x a tracked running job present or not"},
